@@ -211,11 +211,12 @@ static int32_t vector_twoDBC_vpid_of(parsec_data_collection_t *desc, ...)
     va_end(ap);
 
     /* Offset by (i,j) to translate (m,n) in the global matrix */
-    m += dc->super.i / dc->super.mb;
-
 #if defined(DISTRIBUTED)
+    /* rank_of translates by the offset itself: ask it before m is translated */
     assert(desc->myrank == desc->rank_of(desc, m));
 #endif
+
+    m += dc->super.i / dc->super.mb;
 
     /* Compute the local tile row */
     if ( dc->distrib != PARSEC_VECTOR_DISTRIB_COL )
@@ -245,11 +246,12 @@ static parsec_data_t* vector_twoDBC_data_of(parsec_data_collection_t *desc, ...)
     va_end(ap);
 
     /* Offset by (i,j) to translate (m,n) in the global matrix */
-    m += dc->super.i / dc->super.mb;
-
 #if defined(DISTRIBUTED)
+    /* rank_of translates by the offset itself: ask it before m is translated */
     assert(desc->myrank == desc->rank_of(desc, m));
 #endif
+
+    m += dc->super.i / dc->super.mb;
 
     /* Compute the local tile row */
     assert( dc->super.bsiz == (size_t)dc->super.mb );
